@@ -1,6 +1,5 @@
 (* C12 — the reader model refines the whole-stream reference decoder (Model/WsSpec.v) with the
-   aiohttp profile, on every stream whose first violation (if any) is not a data frame interleaved
-   into a fragmented message (there the reader is laxer than RFC 6455 5.4: refuted in Props/C12.v). *)
+   aiohttp profile, on every stream. *)
 From AV Require Import Lib.Base Lib.Utf8Valid Generated.WsGen Model.Ws Model.WsSpec Proofs.WsSeg.
 From Coq Require Import ZifyBool ZifyN.
 Ltac Zify.zify_post_hook ::= Z.to_euclidean_division_equations.
@@ -115,7 +114,7 @@ Lemma data_sim m st h payload rest compN :
   compN = (match sp_cur st with Some (_, cmp) => b2n cmp | None => b2n (h_rsv1 h) end) ->
   match data_frame Cx decomp P c st h payload rest with
   | FNeed => False
-  | FViol e cls => cls = VDataInMessage \/ handle_frame m (h_fin h) (h_op h) payload compN = HErr e
+  | FViol e cls => handle_frame m (h_fin h) (h_op h) payload compN = HErr e
   | FNext ev st' rest' =>
       rest' = rest /\ exists m', handle_frame m (h_fin h) (h_op h) payload compN = HOk ev m' /\ relm m' st' /\
       match sp_cur st' with
@@ -128,7 +127,7 @@ Proof.
   assert (Hop' : h_op h = 0 \/ h_op h = 1 \/ h_op h = 2) by (unfold is_data in Hop; lia).
   unfold data_frame, Ws.handle_frame.
   change OP_TEXT with 1. change OP_BINARY with 2. change OP_CONTINUATION with 0. change NOT_SET_OP with 16.
-  unfold perr, viol1002. change CODE_PROTOCOL_ERROR with 1002. unfold cont_not_started.
+  unfold perr, viol1002. change CODE_PROTOCOL_ERROR with 1002. unfold cont_not_started, data_in_message.
   destruct Hop' as [E | E]; [|destruct E as [E | E]]; rewrite E; cbn [N.eqb Pos.eqb orb andb negb].
   - (* continuation *)
     destruct (sp_cur st) as [[op cmp]|] eqn:Ecur.
@@ -136,34 +135,37 @@ Proof.
       replace (op =? 16) with false by (destruct Hopv as [-> | ->]; reflexivity).
       destruct (h_fin h) eqn:Efin; cbn [negb].
       * pose proof (finish_sim st (m_cx m) op cmp (sp_acc st ++ payload) rest 16 Hcx Hopv) as F.
-        rewrite Hpa. destruct (finish _ _ _ _ _ _ _ _ _) as [|e cls|ev st' rest']; [exact F|right; exact F|].
+        rewrite Hpa. destruct (finish _ _ _ _ _ _ _ _ _) as [|e cls|ev st' rest']; [exact F|exact F|].
         destruct F as (-> & Hc' & Ha' & F). split; [reflexivity|]. eexists; split; [exact F|].
         rewrite Hc'. split; [|reflexivity]. split; [reflexivity|]. rewrite Hc'. cbn. auto.
       * split; [reflexivity|]. eexists; split; [reflexivity|]. cbn [sp_cur]. split; [|auto].
         split; [exact Hcx|]. cbn [sp_cur m_opcode m_partial sp_acc]. rewrite Hpa. auto.
-    + destruct Hm as (Hmo & Hpa & Hac). rewrite Hmo. right. reflexivity.
+    + destruct Hm as (Hmo & Hpa & Hac). rewrite Hmo. reflexivity.
   - (* text *)
-    destruct (sp_cur st) as [[op cmp]|] eqn:Ecur; [left; reflexivity|].
-    destruct Hm as (Hmo & Hpa & Hac). rewrite Hmo, Hpa. cbn [app lenN length N.of_nat N.eqb negb].
+    destruct (sp_cur st) as [[op cmp]|] eqn:Ecur.
+    { destruct Hm as (Hmo & Hopv & Hpa). rewrite Hmo.
+      replace (op =? 16) with false by (destruct Hopv as [-> | ->]; reflexivity). reflexivity. }
+    destruct Hm as (Hmo & Hpa & Hac). rewrite Hmo, Hpa. cbn [app N.eqb Pos.eqb negb].
     destruct (h_fin h) eqn:Efin; cbn [negb].
     * pose proof (finish_sim st (m_cx m) 1 (h_rsv1 h) payload rest 16 Hcx (or_introl eq_refl)) as F.
-      destruct (finish _ _ _ _ _ _ _ _ _) as [|e cls|ev st' rest']; [exact F|right; exact F|].
+      destruct (finish _ _ _ _ _ _ _ _ _) as [|e cls|ev st' rest']; [exact F|exact F|].
       destruct F as (-> & Hc' & Ha' & F). split; [reflexivity|]. eexists; split; [exact F|].
       rewrite Hc'. split; [|reflexivity]. split; [reflexivity|]. rewrite Hc'. cbn. auto.
     * split; [reflexivity|]. eexists; split; [reflexivity|]. cbn [sp_cur]. split; [|auto].
       split; [exact Hcx|]. cbn [sp_cur m_opcode m_partial sp_acc]. auto.
   - (* binary *)
-    destruct (sp_cur st) as [[op cmp]|] eqn:Ecur; [left; reflexivity|].
-    destruct Hm as (Hmo & Hpa & Hac). rewrite Hmo, Hpa. cbn [app lenN length N.of_nat N.eqb negb].
+    destruct (sp_cur st) as [[op cmp]|] eqn:Ecur.
+    { destruct Hm as (Hmo & Hopv & Hpa). rewrite Hmo.
+      replace (op =? 16) with false by (destruct Hopv as [-> | ->]; reflexivity). reflexivity. }
+    destruct Hm as (Hmo & Hpa & Hac). rewrite Hmo, Hpa. cbn [app N.eqb Pos.eqb negb].
     destruct (h_fin h) eqn:Efin; cbn [negb].
     * pose proof (finish_sim st (m_cx m) 2 (h_rsv1 h) payload rest 16 Hcx (or_intror eq_refl)) as F.
-      destruct (finish _ _ _ _ _ _ _ _ _) as [|e cls|ev st' rest']; [exact F|right; exact F|].
+      destruct (finish _ _ _ _ _ _ _ _ _) as [|e cls|ev st' rest']; [exact F|exact F|].
       destruct F as (-> & Hc' & Ha' & F). split; [reflexivity|]. eexists; split; [exact F|].
       rewrite Hc'. split; [|reflexivity]. split; [reflexivity|]. rewrite Hc'. cbn. auto.
     * split; [reflexivity|]. eexists; split; [reflexivity|]. cbn [sp_cur]. split; [|auto].
       split; [exact Hcx|]. cbn [sp_cur m_opcode m_partial sp_acc]. auto.
 Qed.
-
 
 (* ---- the four sections of the loop body against the staged parser ------------------------------ *)
 
@@ -279,7 +281,7 @@ Proof. unfold known_opcode, is_control, is_data. lia. Qed.
 Lemma frame_sim s st d : Rel s st ->
   match spec_frame Cx decomp P c st d with
   | FNeed => exists s1, iter s d = PNeed s1
-  | FViol e cls => cls = VDataInMessage \/ iter s d = PFail e
+  | FViol e cls => iter s d = PFail e
   | FNext ev st' rest => exists s1, iter s d = PDone ev s1 rest /\ Rel s1 st'
   end.
 Proof.
@@ -292,7 +294,7 @@ Proof.
   pose proof (header_sim s st b0 b1 d1 Hp Hip) as H1.
   set (h := parse_header b0 b1) in *.
   destruct (check_header Cx c st h) as [cls|].
-  { right. rewrite H1. reflexivity. }
+  { rewrite H1. reflexivity. }
   destruct H1 as (H1 & Hk). rewrite H1. cbn [Ws.bind].
   change (N.land b0 15) with (h_op h) in Hk.
   set (s1 := hdr_state s h) in *.
@@ -302,8 +304,8 @@ Proof.
   change (s_fop s1) with (h_op h) in H2. change (m_partial (s_m s1)) with (m_partial (s_m s)) in H2.
   rewrite Hacc in H2.
   destruct (ext_len (h_len7 h) d1) as [[len d2]|]; [|rewrite H2; cbn [Ws.bind]; eexists; reflexivity].
-  destruct ((h_len7 h =? 127) && (9223372036854775807 <? len)); [right; rewrite H2; reflexivity|].
-  destruct (is_data (h_op h) && wire_too_big P (max_msg_size c) (len + lenN (sp_acc st))); [right; rewrite H2; reflexivity|].
+  destruct ((h_len7 h =? 127) && (9223372036854775807 <? len)); [rewrite H2; reflexivity|].
+  destruct (is_data (h_op h) && wire_too_big P (max_msg_size c) (len + lenN (sp_acc st))); [rewrite H2; reflexivity|].
   rewrite H2. cbn [Ws.bind].
   set (s2 := len_state s1 len) in *.
   pose proof (mask_sim s2 d2 eq_refl) as H3.
@@ -319,7 +321,7 @@ Proof.
   - (* control frame *)
     pose proof (control_sim (s_m s) st (h_op h) (apply_mask key (takeN (N.to_nat len) d3)) (dropN (N.to_nat len) d3)
                   (s_ffin s3) (s_comp s3) (known_control _ Hk Ectl)) as H4.
-    destruct (control_frame Cx P st (h_op h) _ _) as [|e cls|ev st' rest']; [destruct H4|right; rewrite H4; reflexivity|].
+    destruct (control_frame Cx P st (h_op h) _ _) as [|e cls|ev st' rest']; [destruct H4|rewrite H4; reflexivity|].
     destruct H4 as (H4 & -> & ->). rewrite H4. eexists; split; [reflexivity|].
     unfold Rel. cbn [s_phase s_tail s_frags s_m s_ffin s_comp].
     repeat split; try assumption; try apply Hm.
@@ -340,7 +342,7 @@ Proof.
                   Hm (known_not_control _ Hk Ectl) Hcomp) as H4.
     rewrite Hfin.
     destruct (data_frame Cx decomp P c st h _ _) as [|e cls|ev st' rest']; [destruct H4| |].
-    + destruct H4 as [H4|H4]; [left; exact H4|right; rewrite H4; reflexivity].
+    + rewrite H4; reflexivity.
     + destruct H4 as (-> & m' & H4 & Hm' & Hlast). rewrite H4. eexists; split; [reflexivity|].
       unfold Rel. cbn [s_phase s_tail s_frags s_m s_ffin s_comp].
       repeat split; try apply Hm'.
@@ -357,7 +359,7 @@ Notation runs := (runs Cx decomp c).
 Lemma run_sim fuel : forall s st d acc, Rel s st ->
   match spec_run Cx decomp P c fuel st d acc with
   | (evs, Pending) => exists s1, runs s d acc (evs, Live s1)
-  | (evs, Violation e cls) => cls = VDataInMessage \/ runs s d acc (evs, Latched e)
+  | (evs, Violation e cls) => runs s d acc (evs, Latched e)
   | (_, SpecFuel) => True
   end.
 Proof.
@@ -365,11 +367,11 @@ Proof.
   pose proof (frame_sim s st d HR) as F.
   destruct (spec_frame Cx decomp P c st d) as [|e cls|ev st' rest].
   - destruct F as (s1 & E). exists s1. apply RNeed. exact E.
-  - destruct F as [F|F]; [left; exact F|right; apply RFail; exact F].
+  - apply RFail; exact F.
   - destruct F as (s1 & E & HR'). specialize (IH s1 st' rest (acc ++ ev) HR').
     destruct (spec_run Cx decomp P c f st' rest (acc ++ ev)) as [evs [|e cls|]]; [| |exact I].
     + destruct IH as (s2 & R). exists s2. eapply RDone; eassumption.
-    + destruct IH as [IH|IH]; [left; exact IH|right; eapply RDone; eassumption].
+    + eapply RDone; eassumption.
 Qed.
 
 Lemma rel_init cx0 : Rel (init_state Cx cx0) (mks None [] cx0).
@@ -476,10 +478,9 @@ Qed.
 Theorem refines_aiohttp_profile c cx0 segs :
   let r := feed_all Cx decomp c (Live (init_state Cx cx0)) segs in
   let d := decode Cx decomp aiohttp_profile c cx0 (concat segs) in
-  (forall e, snd d <> Violation e VDataInMessage) ->
   fst r = fst d /\ rd_status (snd r) = out_status (snd d).
 Proof.
-  cbn zeta. intro Hno.
+  cbn zeta.
   destruct (seg_independent c cx0 segs) as (E1 & _ & E3). rewrite E1, E3. clear E1 E3.
   pose proof (feed_runs Cx decomp c (init_state Cx cx0) (concat segs)) as R.
   change (Ws.set_tail Cx (init_state Cx cx0) []) with (init_state Cx cx0) in R. cbn [s_tail init_state app] in R.
@@ -489,8 +490,7 @@ Proof.
   destruct (spec_run Cx decomp aiohttp_profile c (S (length (concat segs))) (mks None [] cx0) (concat segs) []) as [evs out].
   cbn [fst snd] in *. destruct out as [|e cls|]; [| |congruence].
   - destruct HS as (s1 & HS). pose proof (runs_det Cx decomp c _ _ _ _ R _ HS) as XX. rewrite XX. split; reflexivity.
-  - destruct HS as [HS|HS]; [subst cls; exfalso; exact (Hno e eq_refl)|].
-    pose proof (runs_det Cx decomp c _ _ _ _ R _ HS) as XX. rewrite XX. split; reflexivity.
+  - pose proof (runs_det Cx decomp c _ _ _ _ R _ HS) as XX. rewrite XX. split; reflexivity.
 Qed.
 
 End Main.
@@ -554,7 +554,6 @@ End ProfileExt.
 Theorem refines_rfc (Cx : Type) (decomp : Cx -> bytes -> N -> dres Cx) c cx0 segs :
   let r := feed_all Cx decomp c (Live (init_state Cx cx0)) segs in
   let d := decode Cx decomp rfc_profile c cx0 (concat segs) in
-  (forall e, snd d <> Violation e VDataInMessage) ->
   fst r = fst d /\ rd_status (snd r) = out_status (snd d).
 Proof.
   destruct aiohttp_is_rfc as (Hw & Hm & Hc).
